@@ -191,6 +191,16 @@ def rewrite_item(itemtype, buffer, offset, value):
     itemtype._to_buffer(buffer, offset, value, info)
 
 
+def as_index(index):
+    """index as a tuple; NumPy integers become Python integers (the product
+    of a small NumPy integer, e.g. np.int8, and a stride can overflow)"""
+    if isinstance(index, (int, np.integer)):
+        index = (index,)
+    return tuple(
+        int(ii) if isinstance(ii, np.integer) else ii for ii in index
+    )
+
+
 def bound_check(index, shape):
     for ii, ss in zip(index, shape):
         if ii < 0 or ii >= ss:
@@ -604,8 +614,7 @@ class Array(metaclass=MetaArray):
             return offset // cls._itemtype._size
 
     def __getitem__(self, index):
-        if isinstance(index, (int, np.integer)):
-            index = (index,)
+        index = as_index(index)
         cls = self.__class__
         if hasattr(self, "_offsets"):
             offset = self._offset + self._offsets[index]
@@ -619,8 +628,7 @@ class Array(metaclass=MetaArray):
         return cls._itemtype._from_buffer(self._buffer, offset)
 
     def __setitem__(self, index, value):
-        if isinstance(index, (int, np.integer)):
-            index = (index,)
+        index = as_index(index)
         cls = self.__class__
         if hasattr(cls._itemtype, "_update"):
             self[index]._update(value)
@@ -685,8 +693,7 @@ class Array(metaclass=MetaArray):
                 )
 
     def _get_offset(self, index):
-        if isinstance(index, (int, np.integer)):
-            index = (index,)
+        index = as_index(index)
         cls = self.__class__
         if hasattr(self, "_offsets"):
             offset = self._offset + self._offsets[index]
